@@ -145,12 +145,12 @@ package rfc8628
 //@   ensures [C16.user-code-expires-as-recorded] err == nil ==> $now >= old($now) && !expired_at(r.GetSession().GetExpiresAt(fosite.UserCode), r.GetRequestedAt(), h.Config.GetDeviceAndUserCodeLifespan(ctx), $now)
 
 //@ func (*DefaultDeviceStrategy).UserCodeSignature
-//@   requires h != nil
+//@   requires h != nil && h.Enigma != nil
 //@   ensures [C16.user-code-signature] err == nil ==> result0 == hmacstr(h.Enigma, token) && result0 != ""
 //@   ensures [C16.user-code-signature] err != nil ==> result0 == ""
 
 //@ func (*DefaultDeviceStrategy).GenerateUserCode
-//@   requires h != nil
+//@   requires h != nil && h.Enigma != nil
 //@   ensures [C16.user-code-signed] result2 == nil ==> result1 == hmacstr(h.Enigma, result0) && result1 != ""
 
 //@ func (*DefaultDeviceStrategy).GenerateDeviceCode
